@@ -1,0 +1,829 @@
+	.file	"test_int.c"
+	.text
+.Ltext0:
+	.file 0 "/repo/aldor/aldor/src" "test/test_int.c"
+	.section	.rodata
+.LC0:
+	.string	"testLongIs32"
+.LC1:
+	.string	"verifyAIntEqual"
+.LC2:
+	.string	"verifyAIntAbsorbingSum"
+	.text
+	.globl	intTestSuite
+	.type	intTestSuite, @function
+intTestSuite:
+.LFB0:
+	.file 1 "test/test_int.c"
+	.loc 1 12 1
+	.cfi_startproc
+	pushq	%rbp
+	.cfi_def_cfa_offset 16
+	.cfi_offset 6, -16
+	movq	%rsp, %rbp
+	.cfi_def_cfa_register 6
+	.loc 1 13 2
+	call	osInit@PLT
+	.loc 1 14 2
+	call	dbInit@PLT
+	.loc 1 15 2
+	leaq	testLongIs32(%rip), %rax
+	movq	%rax, %rsi
+	leaq	.LC0(%rip), %rax
+	movq	%rax, %rdi
+	call	showTest@PLT
+	.loc 1 16 2
+	leaq	verifyAIntEqual(%rip), %rax
+	movq	%rax, %rsi
+	leaq	.LC1(%rip), %rax
+	movq	%rax, %rdi
+	call	showTest@PLT
+	.loc 1 17 2
+	leaq	verifyAIntAbsorbingSum(%rip), %rax
+	movq	%rax, %rsi
+	leaq	.LC2(%rip), %rax
+	movq	%rax, %rdi
+	call	showTest@PLT
+	.loc 1 18 2
+	call	dbFini@PLT
+	.loc 1 19 1
+	nop
+	popq	%rbp
+	.cfi_def_cfa 7, 8
+	ret
+	.cfi_endproc
+.LFE0:
+	.size	intTestSuite, .-intTestSuite
+	.section	.rodata
+.LC3:
+	.string	"t1"
+.LC4:
+	.string	"t2"
+.LC5:
+	.string	"t3"
+.LC6:
+	.string	"tn"
+	.text
+	.type	testLongIs32, @function
+testLongIs32:
+.LFB1:
+	.loc 1 23 1
+	.cfi_startproc
+	pushq	%rbp
+	.cfi_def_cfa_offset 16
+	.cfi_offset 6, -16
+	movq	%rsp, %rbp
+	.cfi_def_cfa_register 6
+	subq	$16, %rsp
+.LBB2:
+	.loc 1 24 11
+	movq	$-1, %rdi
+	call	longIsInt32@PLT
+	movl	%eax, %esi
+	leaq	.LC3(%rip), %rax
+	movq	%rax, %rdi
+	call	testTrue@PLT
+	.loc 1 24 45
+	movabsq	$4294967296, %rax
+	movq	%rax, %rdi
+	call	longIsInt32@PLT
+	movl	%eax, %esi
+	leaq	.LC4(%rip), %rax
+	movq	%rax, %rdi
+	call	testFalse@PLT
+	.loc 1 24 89
+	movabsq	$-4294967296, %rax
+	movq	%rax, %rdi
+	call	longIsInt32@PLT
+	movl	%eax, %esi
+	leaq	.LC5(%rip), %rax
+	movq	%rax, %rdi
+	call	testFalse@PLT
+	.loc 1 24 140
+	movl	$0, -4(%rbp)
+	.loc 1 24 134
+	jmp	.L3
+.L4:
+	.loc 1 24 155 discriminator 3
+	movl	-4(%rbp), %eax
+	movl	$1, %edx
+	movl	%eax, %ecx
+	salq	%cl, %rdx
+	movq	%rdx, %rax
+	movq	%rax, %rdi
+	call	longIsInt32@PLT
+	movl	%eax, %esi
+	leaq	.LC6(%rip), %rax
+	movq	%rax, %rdi
+	call	testTrue@PLT
+	.loc 1 24 151 discriminator 3
+	addl	$1, -4(%rbp)
+.L3:
+	.loc 1 24 145 discriminator 1
+	cmpl	$29, -4(%rbp)
+	jle	.L4
+	.loc 1 24 197 discriminator 4
+	movl	$0, -4(%rbp)
+	.loc 1 24 191 discriminator 4
+	jmp	.L5
+.L6:
+	.loc 1 24 244 discriminator 7
+	movl	-4(%rbp), %eax
+	movl	$1, %edx
+	movl	%eax, %ecx
+	salq	%cl, %rdx
+	movq	%rdx, %rax
+	.loc 1 24 212 discriminator 7
+	negq	%rax
+	movq	%rax, %rdi
+	call	longIsInt32@PLT
+	movl	%eax, %esi
+	leaq	.LC6(%rip), %rax
+	movq	%rax, %rdi
+	call	testTrue@PLT
+	.loc 1 24 208 discriminator 7
+	addl	$1, -4(%rbp)
+.L5:
+	.loc 1 24 202 discriminator 5
+	cmpl	$30, -4(%rbp)
+	jle	.L6
+.LBE2:
+	.loc 1 34 2
+	movl	$0, %edi
+	call	longIsInt32@PLT
+	movl	%eax, %esi
+	leaq	.LC3(%rip), %rax
+	movq	%rax, %rdi
+	call	testTrue@PLT
+	.loc 1 35 2
+	movl	$2147483647, %edi
+	call	longIsInt32@PLT
+	movl	%eax, %esi
+	leaq	.LC3(%rip), %rax
+	movq	%rax, %rdi
+	call	testTrue@PLT
+	.loc 1 36 2
+	movq	$-2147483647, %rdi
+	call	longIsInt32@PLT
+	movl	%eax, %esi
+	leaq	.LC3(%rip), %rax
+	movq	%rax, %rdi
+	call	testTrue@PLT
+	.loc 1 37 2
+	movq	$-2147483648, %rdi
+	call	longIsInt32@PLT
+	movl	%eax, %esi
+	leaq	.LC3(%rip), %rax
+	movq	%rax, %rdi
+	call	testTrue@PLT
+	.loc 1 38 1
+	nop
+	leave
+	.cfi_def_cfa 7, 8
+	ret
+	.cfi_endproc
+.LFE1:
+	.size	testLongIs32, .-testLongIs32
+	.type	verifyAIntEqual, @function
+verifyAIntEqual:
+.LFB2:
+	.loc 1 42 1
+	.cfi_startproc
+	pushq	%rbp
+	.cfi_def_cfa_offset 16
+	.cfi_offset 6, -16
+	movq	%rsp, %rbp
+	.cfi_def_cfa_register 6
+	.loc 1 43 2
+	movl	$1, %esi
+	movl	$0, %edi
+	call	aintEqual@PLT
+	movl	%eax, %esi
+	leaq	.LC3(%rip), %rax
+	movq	%rax, %rdi
+	call	testFalse@PLT
+	.loc 1 44 2
+	movl	$0, %esi
+	movl	$0, %edi
+	call	aintEqual@PLT
+	movl	%eax, %esi
+	leaq	.LC3(%rip), %rax
+	movq	%rax, %rdi
+	call	testTrue@PLT
+	.loc 1 45 1
+	nop
+	popq	%rbp
+	.cfi_def_cfa 7, 8
+	ret
+	.cfi_endproc
+.LFE2:
+	.size	verifyAIntEqual, .-verifyAIntEqual
+	.section	.rodata
+.LC7:
+	.string	"t4"
+	.text
+	.type	verifyAIntAbsorbingSum, @function
+verifyAIntAbsorbingSum:
+.LFB3:
+	.loc 1 50 1
+	.cfi_startproc
+	pushq	%rbp
+	.cfi_def_cfa_offset 16
+	.cfi_offset 6, -16
+	movq	%rsp, %rbp
+	.cfi_def_cfa_register 6
+	.loc 1 51 17
+	movl	$1, %edx
+	movl	$99, %esi
+	movl	$100, %edi
+	call	aintAbsorbingSum@PLT
+	.loc 1 51 2
+	cmpq	$100, %rax
+	sete	%al
+	movzbl	%al, %eax
+	movl	%eax, %esi
+	leaq	.LC3(%rip), %rax
+	movq	%rax, %rdi
+	call	testTrue@PLT
+	.loc 1 52 17
+	movl	$0, %edx
+	movl	$99, %esi
+	movl	$100, %edi
+	call	aintAbsorbingSum@PLT
+	.loc 1 52 2
+	cmpq	$99, %rax
+	sete	%al
+	movzbl	%al, %eax
+	movl	%eax, %esi
+	leaq	.LC4(%rip), %rax
+	movq	%rax, %rdi
+	call	testTrue@PLT
+	.loc 1 53 17
+	movl	$10, %edx
+	movl	$99, %esi
+	movl	$100, %edi
+	call	aintAbsorbingSum@PLT
+	.loc 1 53 2
+	cmpq	$100, %rax
+	sete	%al
+	movzbl	%al, %eax
+	movl	%eax, %esi
+	leaq	.LC5(%rip), %rax
+	movq	%rax, %rdi
+	call	testTrue@PLT
+	.loc 1 55 17
+	movl	$20, %edx
+	movl	$1073741814, %esi
+	movl	$1073741824, %edi
+	call	aintAbsorbingSum@PLT
+	.loc 1 55 2
+	cmpq	$1073741824, %rax
+	sete	%al
+	movzbl	%al, %eax
+	movl	%eax, %esi
+	leaq	.LC7(%rip), %rax
+	movq	%rax, %rdi
+	call	testTrue@PLT
+	.loc 1 56 1
+	nop
+	popq	%rbp
+	.cfi_def_cfa 7, 8
+	ret
+	.cfi_endproc
+.LFE3:
+	.size	verifyAIntAbsorbingSum, .-verifyAIntAbsorbingSum
+.Letext0:
+	.file 2 "./cport.h"
+	.file 3 "./int.h"
+	.file 4 "test/testlib.h"
+	.file 5 "./debug.h"
+	.file 6 "./opsys.h"
+	.section	.debug_info,"",@progbits
+.Ldebug_info0:
+	.long	0x1d5
+	.value	0x5
+	.byte	0x1
+	.byte	0x8
+	.long	.Ldebug_abbrev0
+	.uleb128 0x9
+	.long	.LASF27
+	.byte	0xc
+	.long	.LASF0
+	.long	.LASF1
+	.quad	.Ltext0
+	.quad	.Letext0-.Ltext0
+	.long	.Ldebug_line0
+	.uleb128 0xa
+	.byte	0x4
+	.byte	0x5
+	.string	"int"
+	.uleb128 0x2
+	.byte	0x1
+	.byte	0x8
+	.long	.LASF2
+	.uleb128 0x2
+	.byte	0x2
+	.byte	0x7
+	.long	.LASF3
+	.uleb128 0x2
+	.byte	0x4
+	.byte	0x7
+	.long	.LASF4
+	.uleb128 0x2
+	.byte	0x8
+	.byte	0x7
+	.long	.LASF5
+	.uleb128 0x2
+	.byte	0x1
+	.byte	0x6
+	.long	.LASF6
+	.uleb128 0x2
+	.byte	0x2
+	.byte	0x5
+	.long	.LASF7
+	.uleb128 0x2
+	.byte	0x8
+	.byte	0x5
+	.long	.LASF8
+	.uleb128 0x7
+	.long	0x6b
+	.uleb128 0x2
+	.byte	0x1
+	.byte	0x6
+	.long	.LASF9
+	.uleb128 0x2
+	.byte	0x4
+	.byte	0x4
+	.long	.LASF10
+	.uleb128 0x2
+	.byte	0x8
+	.byte	0x4
+	.long	.LASF11
+	.uleb128 0x2
+	.byte	0x8
+	.byte	0x5
+	.long	.LASF12
+	.uleb128 0x3
+	.long	.LASF13
+	.value	0x141
+	.byte	0x10
+	.long	0x5f
+	.uleb128 0x3
+	.long	.LASF14
+	.value	0x156
+	.byte	0xd
+	.long	0x2e
+	.uleb128 0x3
+	.long	.LASF15
+	.value	0x16a
+	.byte	0xf
+	.long	0x66
+	.uleb128 0x4
+	.long	.LASF16
+	.byte	0x10
+	.long	0x87
+	.long	0xc9
+	.uleb128 0x1
+	.long	0x87
+	.uleb128 0x1
+	.long	0x87
+	.uleb128 0x1
+	.long	0x87
+	.byte	0
+	.uleb128 0x4
+	.long	.LASF17
+	.byte	0xa
+	.long	0x93
+	.long	0xe2
+	.uleb128 0x1
+	.long	0x87
+	.uleb128 0x1
+	.long	0x87
+	.byte	0
+	.uleb128 0x5
+	.long	.LASF18
+	.byte	0xd
+	.long	0xf7
+	.uleb128 0x1
+	.long	0x9f
+	.uleb128 0x1
+	.long	0x93
+	.byte	0
+	.uleb128 0x5
+	.long	.LASF19
+	.byte	0xc
+	.long	0x10c
+	.uleb128 0x1
+	.long	0x9f
+	.uleb128 0x1
+	.long	0x93
+	.byte	0
+	.uleb128 0x4
+	.long	.LASF20
+	.byte	0x8
+	.long	0x93
+	.long	0x120
+	.uleb128 0x1
+	.long	0x5f
+	.byte	0
+	.uleb128 0x6
+	.long	.LASF22
+	.byte	0x5
+	.byte	0x2a
+	.uleb128 0x5
+	.long	.LASF21
+	.byte	0x15
+	.long	0x13c
+	.uleb128 0x1
+	.long	0x66
+	.uleb128 0x1
+	.long	0x13c
+	.byte	0
+	.uleb128 0x7
+	.long	0x141
+	.uleb128 0xb
+	.uleb128 0x6
+	.long	.LASF23
+	.byte	0x5
+	.byte	0x29
+	.uleb128 0x6
+	.long	.LASF24
+	.byte	0x6
+	.byte	0x15
+	.uleb128 0x8
+	.long	.LASF25
+	.byte	0x31
+	.quad	.LFB3
+	.quad	.LFE3-.LFB3
+	.uleb128 0x1
+	.byte	0x9c
+	.uleb128 0x8
+	.long	.LASF26
+	.byte	0x29
+	.quad	.LFB2
+	.quad	.LFE2-.LFB2
+	.uleb128 0x1
+	.byte	0x9c
+	.uleb128 0xc
+	.long	.LASF28
+	.byte	0x1
+	.byte	0x16
+	.byte	0x1
+	.quad	.LFB1
+	.quad	.LFE1-.LFB1
+	.uleb128 0x1
+	.byte	0x9c
+	.long	0x1be
+	.uleb128 0xd
+	.quad	.LBB2
+	.quad	.LBE2-.LBB2
+	.uleb128 0xe
+	.string	"i"
+	.byte	0x1
+	.byte	0x18
+	.byte	0x8
+	.long	0x2e
+	.uleb128 0x2
+	.byte	0x91
+	.sleb128 -20
+	.byte	0
+	.byte	0
+	.uleb128 0xf
+	.long	.LASF29
+	.byte	0x1
+	.byte	0xb
+	.byte	0x1
+	.quad	.LFB0
+	.quad	.LFE0-.LFB0
+	.uleb128 0x1
+	.byte	0x9c
+	.byte	0
+	.section	.debug_abbrev,"",@progbits
+.Ldebug_abbrev0:
+	.uleb128 0x1
+	.uleb128 0x5
+	.byte	0
+	.uleb128 0x49
+	.uleb128 0x13
+	.byte	0
+	.byte	0
+	.uleb128 0x2
+	.uleb128 0x24
+	.byte	0
+	.uleb128 0xb
+	.uleb128 0xb
+	.uleb128 0x3e
+	.uleb128 0xb
+	.uleb128 0x3
+	.uleb128 0xe
+	.byte	0
+	.byte	0
+	.uleb128 0x3
+	.uleb128 0x16
+	.byte	0
+	.uleb128 0x3
+	.uleb128 0xe
+	.uleb128 0x3a
+	.uleb128 0x21
+	.sleb128 2
+	.uleb128 0x3b
+	.uleb128 0x5
+	.uleb128 0x39
+	.uleb128 0xb
+	.uleb128 0x49
+	.uleb128 0x13
+	.byte	0
+	.byte	0
+	.uleb128 0x4
+	.uleb128 0x2e
+	.byte	0x1
+	.uleb128 0x3f
+	.uleb128 0x19
+	.uleb128 0x3
+	.uleb128 0xe
+	.uleb128 0x3a
+	.uleb128 0x21
+	.sleb128 3
+	.uleb128 0x3b
+	.uleb128 0xb
+	.uleb128 0x39
+	.uleb128 0x21
+	.sleb128 13
+	.uleb128 0x27
+	.uleb128 0x19
+	.uleb128 0x49
+	.uleb128 0x13
+	.uleb128 0x3c
+	.uleb128 0x19
+	.uleb128 0x1
+	.uleb128 0x13
+	.byte	0
+	.byte	0
+	.uleb128 0x5
+	.uleb128 0x2e
+	.byte	0x1
+	.uleb128 0x3f
+	.uleb128 0x19
+	.uleb128 0x3
+	.uleb128 0xe
+	.uleb128 0x3a
+	.uleb128 0x21
+	.sleb128 4
+	.uleb128 0x3b
+	.uleb128 0xb
+	.uleb128 0x39
+	.uleb128 0x21
+	.sleb128 6
+	.uleb128 0x27
+	.uleb128 0x19
+	.uleb128 0x3c
+	.uleb128 0x19
+	.uleb128 0x1
+	.uleb128 0x13
+	.byte	0
+	.byte	0
+	.uleb128 0x6
+	.uleb128 0x2e
+	.byte	0
+	.uleb128 0x3f
+	.uleb128 0x19
+	.uleb128 0x3
+	.uleb128 0xe
+	.uleb128 0x3a
+	.uleb128 0xb
+	.uleb128 0x3b
+	.uleb128 0xb
+	.uleb128 0x39
+	.uleb128 0x21
+	.sleb128 13
+	.uleb128 0x27
+	.uleb128 0x19
+	.uleb128 0x3c
+	.uleb128 0x19
+	.byte	0
+	.byte	0
+	.uleb128 0x7
+	.uleb128 0xf
+	.byte	0
+	.uleb128 0xb
+	.uleb128 0x21
+	.sleb128 8
+	.uleb128 0x49
+	.uleb128 0x13
+	.byte	0
+	.byte	0
+	.uleb128 0x8
+	.uleb128 0x2e
+	.byte	0
+	.uleb128 0x3
+	.uleb128 0xe
+	.uleb128 0x3a
+	.uleb128 0x21
+	.sleb128 1
+	.uleb128 0x3b
+	.uleb128 0xb
+	.uleb128 0x39
+	.uleb128 0x21
+	.sleb128 1
+	.uleb128 0x27
+	.uleb128 0x19
+	.uleb128 0x11
+	.uleb128 0x1
+	.uleb128 0x12
+	.uleb128 0x7
+	.uleb128 0x40
+	.uleb128 0x18
+	.uleb128 0x7c
+	.uleb128 0x19
+	.byte	0
+	.byte	0
+	.uleb128 0x9
+	.uleb128 0x11
+	.byte	0x1
+	.uleb128 0x25
+	.uleb128 0xe
+	.uleb128 0x13
+	.uleb128 0xb
+	.uleb128 0x3
+	.uleb128 0x1f
+	.uleb128 0x1b
+	.uleb128 0x1f
+	.uleb128 0x11
+	.uleb128 0x1
+	.uleb128 0x12
+	.uleb128 0x7
+	.uleb128 0x10
+	.uleb128 0x17
+	.byte	0
+	.byte	0
+	.uleb128 0xa
+	.uleb128 0x24
+	.byte	0
+	.uleb128 0xb
+	.uleb128 0xb
+	.uleb128 0x3e
+	.uleb128 0xb
+	.uleb128 0x3
+	.uleb128 0x8
+	.byte	0
+	.byte	0
+	.uleb128 0xb
+	.uleb128 0x15
+	.byte	0
+	.uleb128 0x27
+	.uleb128 0x19
+	.byte	0
+	.byte	0
+	.uleb128 0xc
+	.uleb128 0x2e
+	.byte	0x1
+	.uleb128 0x3
+	.uleb128 0xe
+	.uleb128 0x3a
+	.uleb128 0xb
+	.uleb128 0x3b
+	.uleb128 0xb
+	.uleb128 0x39
+	.uleb128 0xb
+	.uleb128 0x27
+	.uleb128 0x19
+	.uleb128 0x11
+	.uleb128 0x1
+	.uleb128 0x12
+	.uleb128 0x7
+	.uleb128 0x40
+	.uleb128 0x18
+	.uleb128 0x7c
+	.uleb128 0x19
+	.uleb128 0x1
+	.uleb128 0x13
+	.byte	0
+	.byte	0
+	.uleb128 0xd
+	.uleb128 0xb
+	.byte	0x1
+	.uleb128 0x11
+	.uleb128 0x1
+	.uleb128 0x12
+	.uleb128 0x7
+	.byte	0
+	.byte	0
+	.uleb128 0xe
+	.uleb128 0x34
+	.byte	0
+	.uleb128 0x3
+	.uleb128 0x8
+	.uleb128 0x3a
+	.uleb128 0xb
+	.uleb128 0x3b
+	.uleb128 0xb
+	.uleb128 0x39
+	.uleb128 0xb
+	.uleb128 0x49
+	.uleb128 0x13
+	.uleb128 0x2
+	.uleb128 0x18
+	.byte	0
+	.byte	0
+	.uleb128 0xf
+	.uleb128 0x2e
+	.byte	0
+	.uleb128 0x3f
+	.uleb128 0x19
+	.uleb128 0x3
+	.uleb128 0xe
+	.uleb128 0x3a
+	.uleb128 0xb
+	.uleb128 0x3b
+	.uleb128 0xb
+	.uleb128 0x39
+	.uleb128 0xb
+	.uleb128 0x11
+	.uleb128 0x1
+	.uleb128 0x12
+	.uleb128 0x7
+	.uleb128 0x40
+	.uleb128 0x18
+	.uleb128 0x7c
+	.uleb128 0x19
+	.byte	0
+	.byte	0
+	.byte	0
+	.section	.debug_aranges,"",@progbits
+	.long	0x2c
+	.value	0x2
+	.long	.Ldebug_info0
+	.byte	0x8
+	.byte	0
+	.value	0
+	.value	0
+	.quad	.Ltext0
+	.quad	.Letext0-.Ltext0
+	.quad	0
+	.quad	0
+	.section	.debug_line,"",@progbits
+.Ldebug_line0:
+	.section	.debug_str,"MS",@progbits,1
+.LASF12:
+	.string	"long long int"
+.LASF18:
+	.string	"testFalse"
+.LASF13:
+	.string	"AInt"
+.LASF26:
+	.string	"verifyAIntEqual"
+.LASF16:
+	.string	"aintAbsorbingSum"
+.LASF15:
+	.string	"String"
+.LASF29:
+	.string	"intTestSuite"
+.LASF5:
+	.string	"long unsigned int"
+.LASF21:
+	.string	"showTest"
+.LASF20:
+	.string	"longIsInt32"
+.LASF24:
+	.string	"osInit"
+.LASF27:
+	.string	"GNU C99 12.2.0 -mtune=generic -march=x86-64 -g -O0 -std=c99 -fasynchronous-unwind-tables"
+.LASF22:
+	.string	"dbFini"
+.LASF2:
+	.string	"unsigned char"
+.LASF9:
+	.string	"char"
+.LASF25:
+	.string	"verifyAIntAbsorbingSum"
+.LASF14:
+	.string	"Bool"
+.LASF8:
+	.string	"long int"
+.LASF11:
+	.string	"double"
+.LASF23:
+	.string	"dbInit"
+.LASF17:
+	.string	"aintEqual"
+.LASF3:
+	.string	"short unsigned int"
+.LASF6:
+	.string	"signed char"
+.LASF28:
+	.string	"testLongIs32"
+.LASF10:
+	.string	"float"
+.LASF7:
+	.string	"short int"
+.LASF4:
+	.string	"unsigned int"
+.LASF19:
+	.string	"testTrue"
+	.section	.debug_line_str,"MS",@progbits,1
+.LASF1:
+	.string	"/repo/aldor/aldor/src"
+.LASF0:
+	.string	"test/test_int.c"
+	.ident	"GCC: (Debian 12.2.0-14+deb12u1) 12.2.0"
+	.section	.note.GNU-stack,"",@progbits
